@@ -304,6 +304,85 @@ theorem walk_public_rule (sf : Walk.SymFile) (base instr : Nat) (hge : base ≤ 
       · exact hlt
       · exact absurd (hcut.mpr ⟨e, he, hle, by omega⟩) ht
 
+/-- **`walk_public_rule_from_c11`** — the same statement DERIVED from C11's `public_rule` (not
+    re-proved on the walker model): for a `u64` instruction C11's model answers on the canonical
+    related file (`c11_answers`), its answer is the walker model's (`walk_fill_eq_c11`), the two
+    function tables have the same entry ranges and miss together (`ftab_sim`), and C11's
+    `NearestPublic` of the translated records is `WNearest` (`WNearest_iff`). So C11.2 as proved about
+    `MdModel.Symbolize` is literally a theorem about the walker model's `fillSymbol`.
+    (`walk_public_rule` above needs no bound on `instr`; this one has it because C11's model answers
+    only for `u64` instructions.) -/
+theorem walk_public_rule_from_c11 (sf : Walk.SymFile) (base instr : Nat) (hi : instr ≤ U64MAX)
+    (hge : base ≤ instr) (hnf : get (Walk.funcTable sf) (instr - base) = none) :
+    (∃ p, WNearest sf.pubs (instr - base) p ∧
+        (∀ e ∈ Walk.funcTable sf, e.1.lo ≤ instr - base → e.1.lo < p.addr) ∧
+        Walk.fillSymbol sf (Walk.funcTable sf) base instr =
+          some { name := p.name, base := p.addr + base, psize := p.psize }) ∨
+    (Walk.fillSymbol sf (Walk.funcTable sf) base instr = none ∧
+      ((∀ q ∈ sf.pubs, instr - base < q.addr) ∨
+       ∃ p, WNearest sf.pubs (instr - base) p ∧
+         ∃ e ∈ Walk.funcTable sf, e.1.lo ≤ instr - base ∧ p.addr ≤ e.1.lo)) := by
+  obtain ⟨csf, fr, hb, hfr⟩ := c11_answers sf base instr hi
+  have B := Symbolize.build_built hb
+  obtain ⟨t1, _, t3⟩ := ftab_sim (recsOf_rel sf) (instr - base)
+  rw [← B.funcs, ← B.ftab] at t1 t3
+  have heq := walk_fill_eq_c11 (recsOf_rel sf) rfl rfl hb hfr
+  -- C11's table has no entry at the address either
+  have hnf' : Symbolize.funcAt csf.funcs csf.ftab (instr - base) = none := by
+    cases hg : Symbolize.funcAt csf.funcs csf.ftab (instr - base) with
+    | none => rfl
+    | some g =>
+      obtain ⟨i, w, _, hget, _⟩ := t1 g hg
+      rw [hnf] at hget; cases hget
+  -- the entries of the two tables start at the same addresses
+  have hlo1 : ∀ e ∈ Walk.funcTable sf, ∃ e' ∈ csf.ftab, e'.1 = e.1 := by
+    intro e he
+    have : e.1 ∈ (Walk.funcTable sf).map (·.1) := List.mem_map_of_mem he
+    rw [← t3] at this
+    obtain ⟨e', he', h⟩ := List.mem_map.mp this
+    exact ⟨e', he', h⟩
+  have hlo2 : ∀ e' ∈ csf.ftab, ∃ e ∈ Walk.funcTable sf, e.1 = e'.1 := by
+    intro e' he'
+    have : e'.1 ∈ csf.ftab.map (·.1) := List.mem_map_of_mem he'
+    rw [t3] at this
+    obtain ⟨e, he, h⟩ := List.mem_map.mp this
+    exact ⟨e, he, h⟩
+  have hpubs : (recsOf sf).pubs = sf.pubs.map pubOf := rfl
+  rcases Symbolize.public_rule hb hge hfr hnf' with ⟨p, hn, hcut, hfn⟩ | ⟨hfn, hrest⟩
+  · left
+    rw [hpubs] at hn
+    obtain ⟨q, hq, rfl⟩ := List.mem_map.mp hn.1
+    refine ⟨q, (WNearest_iff sf.pubs _ q).mpr ⟨hn, hq⟩, ?_, ?_⟩
+    · intro e he hle
+      obtain ⟨e', he', hee⟩ := hlo1 e he
+      have := hcut e' he' (by rw [hee]; exact hle)
+      rw [hee] at this
+      exact this
+    · rw [hfn] at heq
+      cases hw : Walk.fillSymbol sf (Walk.funcTable sf) base instr with
+      | none => rw [hw] at heq; cases heq
+      | some g =>
+        rw [hw] at heq
+        simp only [Option.map_some, projW, pubOf, Option.some.injEq, Prod.mk.injEq] at heq
+        obtain ⟨c1, c2, c3⟩ := heq
+        obtain ⟨gn, gb, gp⟩ := g
+        simp only at c1 c2 c3
+        rw [nm_inj c1, c2, c3]
+  · right
+    rw [hfn] at heq
+    refine ⟨?_, ?_⟩
+    · cases hw : Walk.fillSymbol sf (Walk.funcTable sf) base instr with
+      | none => rfl
+      | some g => rw [hw] at heq; cases heq
+    · rcases hrest with hall | ⟨p, hn, e', he', hle, hpa⟩
+      · left
+        intro q hq
+        exact hall (pubOf q) (by rw [hpubs]; exact List.mem_map_of_mem hq)
+      · right
+        rw [hpubs] at hn
+        obtain ⟨q, hq, rfl⟩ := List.mem_map.mp hn.1
+        obtain ⟨e, he, hee⟩ := hlo2 e' he'
+        exact ⟨q, (WNearest_iff sf.pubs _ q).mpr ⟨hn, hq⟩, e, he, by rw [hee]; exact hle, by rw [hee]; exact hpa⟩
 /-- **`walk_bases_le`** (C11.3 `bases_le` through the bridge) — "reported function … base addresses
     never exceed the instruction": the base of the function the walker model puts on a frame is at
     most the frame's lookup address (so `function_base ≤ instruction` on every frame) -/
